@@ -1553,7 +1553,12 @@ def override_case(ctx, G, tmp, tag, cfg, ov, what):
         real_crash(ctx, "intake of granular infrastructure files", e, inp)
         return
     resolver = file_resolver(os.path.join(root, "inputs"), cfg)
-    handed_oracle(ctx, G, cfg, res[-1]["handed"], inp, None, resolver=resolver)
+    seeds = None
+    sp = os.path.join(root, "inputs", "generator", "emis_preseed.p")
+    if os.path.exists(sp):
+        import pickle
+        seeds = [int(x) for x in pickle.load(open(sp, "rb"))]      # same-seed scenarios are known finding F10c
+    handed_oracle(ctx, G, cfg, res[-1]["handed"], inp, seeds, resolver=resolver)
     for path, _ in res[-1]["handed"][0]:
         r = resolver(path)
         for fam in FAMILIES:
